@@ -76,6 +76,19 @@ Theorem C10_default_helpers_spare_safe : forall s, In s safe_classes ->
 Proof. exact l_default_helpers_spare_safe. Qed.
 Eval vm_compute in "ASSUME:C10_default_helpers_spare_safe". Print Assumptions C10_default_helpers_spare_safe.
 
+(* KIND C10_entry_classes_unrelated : F *)
+(* the sixteen classes a user passes as Loader= / Dumper= (frozen list of the public entry classes) are pairwise unrelated by
+   inheritance in the regenerated class world - none is a base of another - and each exists *)
+Theorem C10_entry_classes_unrelated : unrelated w0 entry_classes = true /\ forallb (fun c => existsb (String.eqb c) (mro_of w0 c)) entry_classes = true.
+Proof. exact l_entry_classes_unrelated. Qed.
+Eval vm_compute in "ASSUME:C10_entry_classes_unrelated". Print Assumptions C10_entry_classes_unrelated.
+(* KIND C10_entry_classes_isolated : D *)
+(* hence a registration of any kind on one shipped entry class changes no effective table of any other shipped entry class *)
+Theorem C10_entry_classes_isolated : forall k c keys v d k', In c entry_classes -> In d entry_classes -> c <> d ->
+  effective (step cow_of w0 (Add k c keys v)) d k' = effective w0 d k'.
+Proof. exact l_entry_isolated. Qed.
+Eval vm_compute in "ASSUME:C10_entry_classes_isolated". Print Assumptions C10_entry_classes_isolated.
+
 (* KIND C10_nonvacuous : F *)
 Example C10_nonvacuous :
   forallb op_ok demo_history = true /\ avoids (mro_of w0 "SafeLoader") demo_history = true /\
